@@ -50,6 +50,24 @@ func c02Doc(family int, v string) ([]map[string]any, func()) {
 		}
 		doc := map[string]any{"include": []any{"a/inc.yaml", "b/inc.yaml"}, "services": map[string]any{"own": map[string]any{"image": "i"}}}
 		return []map[string]any{doc}, setup
+	case family == 16: // two services extend the same service of another file; one is its homonym and overrides
+		setup = func() {
+			vrtYamlFile(w+"/common/base.yaml", map[string]any{"services": map[string]any{"web": map[string]any{"image": "base", "environment": map[string]any{"ROLE": "base"}, "healthcheck": map[string]any{"interval": "5s", "test": []any{"CMD", "x"}}}}})
+		}
+		ext := map[string]any{"file": "common/base.yaml", "service": "web"}
+		doc := map[string]any{"services": map[string]any{
+			"web":   map[string]any{"extends": ext, "environment": map[string]any{"ROLE": "front" + v}, "healthcheck": map[string]any{"timeout": "1s"}},
+			"admin": map[string]any{"extends": ext, "hostname": "adm"},
+			"zed":   map[string]any{"extends": ext, "environment": map[string]any{"ROLE": "zed"}}}}
+		return []map[string]any{doc}, setup
+	case family == 17: // default network: one explicit reference, the others implicit
+		doc := map[string]any{"services": map[string]any{
+			"a": map[string]any{"image": "i", "networks": []any{"default", "edge"}},
+			"b": map[string]any{"image": "i"},
+			"c": map[string]any{"image": "i", "hostname": v},
+			"z": map[string]any{"image": "i"}},
+			"networks": map[string]any{"edge": nil}}
+		return []map[string]any{doc}, setup
 	}
 	return nil, setup
 }
@@ -81,7 +99,7 @@ func c02Permute(doc map[string]any) map[string]any {
 }
 
 func VerifC02Determinism() {
-	family := vrtChoice("family", 16)
+	family := vrtChoice("family", 18)
 	v := "x" + vrtString("v", vrtParam("VL", 1), "ab")
 	mode := []int{1, 3, 4}[vrtChoice("order", 3)]
 	permute := vrtChoice("permuteDeclaration", 2) == 1
